@@ -36,12 +36,23 @@ def enclosing_tests(node_ast, stop):
     return out
 
 
-def conjuncts(test):
+def conjuncts(test, view=None, at=None, depth=0):
+    """conjuncts of a test; a Name conjunct that is a single-definition boolean local whose operands are not
+    re-bound between its definition and the test is replaced by the conjuncts of its definition."""
     if isinstance(test, ast.BoolOp) and isinstance(test.op, ast.And):
         out = []
         for v in test.values:
-            out += conjuncts(v)
+            out += conjuncts(v, view, at, depth)
         return out
+    if view is not None and at is not None and isinstance(test, ast.Name) and depth < 4:
+        node = view.cfg.node_of(at)
+        defs = view.rd.reaching(node, test.id) if node is not None else []
+        if len(defs) == 1 and test.id in view.rd.defs[defs[0].id] and view.rd.defs[defs[0].id][test.id][0] == "expr":
+            rhs = view.rd.defs[defs[0].id][test.id][1]
+            stable = all(set(d.id for d in view.rd.reaching(node, nm.id)) == set(d.id for d in view.rd.reaching(defs[0], nm.id))
+                         for nm in ast.walk(rhs) if isinstance(nm, ast.Name) and nm.id != test.id)
+            if stable and isinstance(rhs, (ast.Compare, ast.BoolOp, ast.Call, ast.UnaryOp)):
+                return conjuncts(rhs, view, at, depth + 1)
     return [test]
 
 
@@ -134,7 +145,7 @@ def check(run, project):
     tparam = fn.args.args[0].arg
     for rnode, states in silent[:1]:
         tests = enclosing_tests(rnode.ast, fn)
-        cj = [c for t, in_body in tests if in_body for c in conjuncts(t)]
+        cj = [c for t, in_body in tests if in_body for c in conjuncts(t, F, t)]
         dep_ok = any(isinstance(c, ast.Name) and c.id == roles.depleted_var for c in cj)
         typed = any(norm(c) in (f"{tparam} is {stream_name}", f"{tparam} == {stream_name}",
                                 f"issubclass({tparam}, {stream_name})") for c in cj)
